@@ -36,6 +36,33 @@ Definition state_audit : list (state_item * state_verdict) := [
    SImportTimeRegistry "providers appended at import")
 ]%list.
 
+(* phase 4: the same inventory over every other non-test module.  Process-global objects that are
+   stored through, and functions memoised with functools.cache / lru_cache. *)
+Definition state_audit_extra : list (state_item * state_verdict) := [
+  (StateItem "error_code.py" "<module>" "ErrorCode" "instance:ErrorRegistry[errors]" true,
+   SImportTimeRegistry "error codes are registered when the package / an extension is imported (register_error_code)");
+  (StateItem "find_unused.py" "<module>" "_used_objects" "call:set" true,
+   SImportTimeRegistry "filled by the @used decorator at import; membership tests only");
+  (StateItem "find_unused.py" "<module>" "_test_helper_objects" "call:set" true,
+   SImportTimeRegistry "filled by the @test_helper decorator at import; membership tests only");
+  (StateItem "functions.py" "<module>" "_safe_decorators" "list" true,
+   SImportTimeRegistry "asyncio.coroutine appended at import when it exists; default of an option");
+  (StateItem "importer.py" "<function>" "directory_has_init" "cachedfn:lru_cache" true,
+   SProcessCache "lru_cache keyed by the directory path: a fact about the file system, assumed unchanged during a run");
+  (StateItem "options.py" "ConfigOption" "registry" "dict" true,
+   SImportTimeRegistry "option classes register themselves in __init_subclass__ while modules are imported");
+  (StateItem "options.py" "<function>" "get_all_error_codes" "cachedfn:lru_cache" true,
+   SProcessCache "no argument: the names in the ErrorCode registry, complete once the package is imported (a code registered later by an extension would be missed)");
+  (StateItem "runtime.py" "<function>" "_get_checker" "cachedfn:cache" true,
+   SProcessCache "no argument: one Checker shared by the runtime API (is_assignable, get_assignability_error); its own caches are the per-Checker caches audited above, keyed by type / object");
+  (StateItem "safe.py" "<module>" "_typing_name_cache" "dict" true,
+   SProcessCache "keyed by the attribute name: the objects of that name in typing / typing_extensions / mypy_extensions, fixed after import");
+  (StateItem "typeshed.py" "<module>" "PROPERTY_LIKE" "set" true,
+   SImportTimeRegistry "enum.property added at import when it exists; membership tests only");
+  (StateItem "typeshed.py" "_DummyErrorContext" "all_failures" "list" true,
+   SSharedReadOnly "class-level list of the context that discards errors: show_error never appends to it")
+]%list.
+
 Fixpoint lookup_state (s : state_item) (t : list (state_item * state_verdict)) : option state_verdict :=
   match t with
   | [] => None
@@ -43,11 +70,11 @@ Fixpoint lookup_state (s : state_item) (t : list (state_item * state_verdict)) :
   end%list.
 
 Definition state_classified (s : state_item) : bool :=
-  if st_mutated s then match lookup_state s state_audit with Some _ => true | None => false end
+  if st_mutated s then match lookup_state s (state_audit ++ state_audit_extra)%list with Some _ => true | None => false end
   else true.   (* SConstantTable *)
 
 Definition state_audit_live (inventory : list state_item) : bool :=
-  forallb (fun e => existsb (state_eqb (fst e)) inventory) state_audit.
+  forallb (fun e => existsb (state_eqb (fst e)) inventory) (state_audit ++ state_audit_extra)%list.
 
 (* Every lookup / store / membership test on a cache of the seven files, with the text of
    its key.  The audit above (and the per-Checker caches: type_object_cache, known_argspecs,
@@ -65,7 +92,20 @@ Definition state_audit_live (inventory : list state_item) : bool :=
    read a memo (a compound whose inverse collapses to NULL_CONSTRAINT leaves a dangling, never read
    `_inverted` on it).  Hence key = object identity determines the result (C10_keyed_memo_history_independent
    with an injective key). *)
+(* "slot <attr>" rows (phase 4, after the round-3 seeded change): every `self.<attr> = ...` outside
+   __init__/__post_init__ in the value / type-object / signature classes and in Checker, ArgSpecCache,
+   TypeshedFinder -- objects that are shared through Checker-level caches (the return value of a cached
+   signature is ONE TypedValue for all call sites of all files) -- with the assigned expression and the
+   conditions it sits under.  Classification:
+     TypedValue._type_object        write-once, filled only through a context (ctx.make_type_object, itself
+                                    memoised per Checker by type): every route computes the same object; the
+                                    context-less call returns a throw-away TypeObject and must NOT store it
+     TypeAlias.evaluated_value / type_params   write-once, computed by the alias's own evaluator
+     Checker._has_used_any_match    a flag that is reset (qcore.override ... False) around every use *)
 Definition pinned_cache_keys : list cache_key := [
+  CacheKey "annotations.py" "_DefaultContext.get_type_alias" "cache" "in" "key";
+  CacheKey "annotations.py" "_DefaultContext.get_type_alias" "cache" "load" "key";
+  CacheKey "annotations.py" "_DefaultContext.get_type_alias" "cache" "store" "key";
   CacheKey "arg_spec.py" "ArgSpecCache.__init__" "self.known_argspecs" "store" "obj";
   CacheKey "arg_spec.py" "ArgSpecCache._cached_get_argspec" "self.known_argspecs" "in" "obj";
   CacheKey "arg_spec.py" "ArgSpecCache._cached_get_argspec" "self.known_argspecs" "load" "obj";
@@ -76,10 +116,14 @@ Definition pinned_cache_keys : list cache_key := [
   CacheKey "checker.py" "Checker.make_type_object" "self.type_object_cache" "in" "typ";
   CacheKey "checker.py" "Checker.make_type_object" "self.type_object_cache" "load" "typ";
   CacheKey "checker.py" "Checker.make_type_object" "self.type_object_cache" "store" "typ";
+  CacheKey "checker.py" "Checker.record_any_used" "slot _has_used_any_match" "assign" "True";
   CacheKey "name_check_visitor.py" "NameCheckVisitor._fill_method_cache" "self._method_cache" "store" "typ";
   CacheKey "name_check_visitor.py" "NameCheckVisitor._set_argspec_to_retval" "self._argspec_to_retval" "store" "id(sig)";
   CacheKey "name_check_visitor.py" "NameCheckVisitor.get_local_return_value" "self._argspec_to_retval" "get" "id(sig)";
   CacheKey "name_check_visitor.py" "NameCheckVisitor.visit" "self._method_cache" "load" "node_type := type(node)";
+  CacheKey "node_visitor.py" "BaseNodeVisitor.show_error" "self.seen_errors" "in" "key := (node, error_code or e)";
+  CacheKey "safe.py" "_fill_typing_name_cache" "_typing_name_cache" "load" "name";
+  CacheKey "safe.py" "_fill_typing_name_cache" "_typing_name_cache" "store" "name";
   CacheKey "stacked_scopes.py" "Constraint._apply_compound" "attribute _compound_cache" "get" "object self";
   CacheKey "stacked_scopes.py" "Constraint._apply_compound" "attribute _compound_cache" "store" "object self";
   CacheKey "stacked_scopes.py" "Constraint._apply_compound" "cache" "get" "id(value)";
@@ -91,7 +135,15 @@ Definition pinned_cache_keys : list cache_key := [
   CacheKey "stacked_scopes.py" "_memoized_invert" "attribute _inverted" "store" "object cached";
   CacheKey "stacked_scopes.py" "_memoized_invert" "attribute _inverted" "store" "object constraint";
   CacheKey "type_object.py" "TypeObject.can_assign" "self._protocol_positive_cache" "get" "other_val";
-  CacheKey "type_object.py" "TypeObject.can_assign" "self._protocol_positive_cache" "store" "other_val"
+  CacheKey "type_object.py" "TypeObject.can_assign" "self._protocol_positive_cache" "store" "other_val";
+  CacheKey "typeshed.py" "TypeshedFinder._value_from_info_inner" "self._assignment_cache" "in" "key := (module, info.ast)";
+  CacheKey "typeshed.py" "TypeshedFinder._value_from_info_inner" "self._assignment_cache" "load" "key := (module, info.ast)";
+  CacheKey "typeshed.py" "TypeshedFinder._value_from_info_inner" "self._assignment_cache" "store" "key := (module, info.ast)";
+  CacheKey "typeshed.py" "TypeshedFinder.get_attribute_for_fq_name" "self._attribute_cache" "load" "key := (fq_name, attr, on_class)";
+  CacheKey "typeshed.py" "TypeshedFinder.get_attribute_for_fq_name" "self._attribute_cache" "store" "key := (fq_name, attr, on_class)";
+  CacheKey "value.py" "TypeAlias.get_type_params" "slot type_params" "assign" "self.evaluate_type_params() WHEN (self.type_params is None)";
+  CacheKey "value.py" "TypeAlias.get_value" "slot evaluated_value" "assign" "self.evaluator() WHEN (self.evaluated_value is None)";
+  CacheKey "value.py" "TypedValue.get_type_object" "slot _type_object" "assign" "ctx.make_type_object(self.typ) WHEN (self._type_object is None)"
 ]%list.
 
 Fixpoint keys_eqb (a b : list cache_key) : bool :=
@@ -113,3 +165,12 @@ Definition field_status (fs : list (string * string)) (f : string) : string :=
 Definition resolution_key_ok (fs : list (string * string)) : bool :=
   String.eqb (field_status fs "varname") "kept" && String.eqb (field_status fs "node") "kept"
   && String.eqb (field_status fs "state") "kept".
+
+(* The unchanged tree keys TypeObject._protocol_positive_cache by `other_val` only (known finding
+   C10-protocol-positive-cache-key); repo_fixes/C10-protocol-cache-key keys it by (self_val, other_val).
+   Both texts are accepted, anything else fires. *)
+Definition after_protocol_fix (k : cache_key) : cache_key :=
+  if String.eqb (ck_cache k) "self._protocol_positive_cache"
+  then CacheKey (ck_file k) (ck_func k) (ck_cache k) (ck_op k) "cache_key := (self_val, other_val)"
+  else k.
+Definition pinned_cache_keys_after_protocol_fix : list cache_key := map after_protocol_fix pinned_cache_keys.
